@@ -219,6 +219,11 @@ func AddBulk(api ClientApi) http.HandlerFunc {
 		}
 
 		// Wait for the response
+		if len(eventBulk.Events) == 0 {
+			http.Error(w, "Please send at least one event", http.StatusBadRequest)
+			return
+		}
+
 		snapshotBulk, err := api.AddBulk(eventBulk.Events)
 		switch err {
 		case nil:
